@@ -172,4 +172,9 @@ def fallback_search(p, why, n=1500):
         for chunks in gen_histories(rnd, n):
             v = history_check(cfg, chunks, key)
             if v: return {"violated": True, "detail": v, "found_by": "bounded API-level search"}
+    # the exact transition clauses (T1-T14) are what the reference receiver of props/c06_rt.py implements: compare the real reader with it after every call
+    from props import c06_rt
+    for seed in (11, 12):
+        b = c06_rt.ideal_receiver_check({"seed": seed, "n": 500})
+        if b.get("violations"): return {"violated": True, "detail": b["violations"][0], "found_by": "bounded comparison with the reference receiver"}
     return {"violated": False, "inconclusive": True, "detail": why + "; bounded API-level search found nothing"}
